@@ -161,9 +161,11 @@ def _semantic(p, led, lys, res, Q):
         @stub
         def adv_digester(interp, args, kwargs):
             log.append(("digester", args[0]))
-            c = interp.o.choose(3, "adversarial digester: returns {} / returns a mapping / raises")
+            c = interp.o.choose(4, "adversarial digester: returns {} / returns a mapping / raises / returns something that is not a mapping")
             if c == 2:
                 raise PyRaise(ExcVal("RuntimeError", ("digester failed",)))
+            if c == 3:
+                return "done"          # truthy, not a mapping: salvaging from it fails — the item failed, it was not digested
             return {} if c == 0 else {"k": Unknown("recycled_value")}
 
         @stub
@@ -255,7 +257,7 @@ def _semantic(p, led, lys, res, Q):
                 except PyRaise as e:
                     return dict(raised=repr(e.exc))
                 q = L.fields[Q]
-                raised_n = sum(1 for lab, c in it.o.labels if lab.startswith("adversarial digester") and c == 2)
+                raised_n = sum(1 for lab, c in it.o.labels if lab.startswith("adversarial digester") and c in (2, 3))
                 f = r.fields if isinstance(r, Obj) else {}
                 return dict(q=[idx(ws, x) for x in q], handled=[idx(ws, x) for kind, x in log if kind == "digester"], disposed=f.get("disposed"), nerr=len(f.get("errors", [])) if isinstance(f.get("errors"), list) else None,
                             success=f.get("success"), raised_n=raised_n, dig=(L.fields[DIG], d0))
